@@ -302,6 +302,9 @@ struct CountingInspector {
     creates: i64,
     create_ends: i64,
     short_circuit_calls: bool,
+    short_circuit_creates: bool,
+    eofcreates: i64,
+    eofcreate_ends: i64,
     depth: i64,
     max_depth_mismatch: bool,
 }
@@ -326,9 +329,21 @@ impl<DB: Database> revm::Inspector<DB> for CountingInspector {
         }
         o
     }
-    fn create(&mut self, _c: &mut EvmContext<DB>, _i: &mut CreateInputs) -> Option<revm::interpreter::CreateOutcome> {
+    fn create(&mut self, _c: &mut EvmContext<DB>, i: &mut CreateInputs) -> Option<revm::interpreter::CreateOutcome> {
         self.creates += 1;
+        if self.short_circuit_creates {
+            use revm::interpreter::{CreateOutcome, Gas, InstructionResult, InterpreterResult};
+            return Some(CreateOutcome::new(InterpreterResult::new(InstructionResult::Revert, Bytes::new(), Gas::new(i.gas_limit)), None));
+        }
         None
+    }
+    fn eofcreate(&mut self, _c: &mut EvmContext<DB>, _i: &mut revm::interpreter::EOFCreateInputs) -> Option<revm::interpreter::CreateOutcome> {
+        self.eofcreates += 1;
+        None
+    }
+    fn eofcreate_end(&mut self, _c: &mut EvmContext<DB>, _i: &revm::interpreter::EOFCreateInputs, o: revm::interpreter::CreateOutcome) -> revm::interpreter::CreateOutcome {
+        self.eofcreate_ends += 1;
+        o
     }
     fn create_end(&mut self, _c: &mut EvmContext<DB>, _i: &CreateInputs, o: revm::interpreter::CreateOutcome) -> revm::interpreter::CreateOutcome {
         self.create_ends += 1;
@@ -350,30 +365,38 @@ pub fn inspector_balance() -> String {
     ];
     let mut out = String::new();
     let mut bad = false;
-    for short in [false, true] {
+    for (short, short_create, eof_tx) in [(false, false, false), (true, false, false), (false, true, false), (false, false, true)] {
         let mut db = CacheDB::new(EmptyDB::default());
         db.insert_account_info(CALLER, AccountInfo { nonce: 0, balance: U256::from(1_000_000_000u64), code_hash: B256::default(), code: None });
         let bc = Bytecode::new_legacy(Bytes::from(code.clone()));
         db.insert_account_info(TARGET, AccountInfo { nonce: 1, balance: U256::ZERO, code_hash: bc.hash_slow(), code: Some(bc) });
-        let insp = CountingInspector { short_circuit_calls: short, ..Default::default() };
+        let insp = CountingInspector { short_circuit_calls: short, short_circuit_creates: short_create, ..Default::default() };
         let mut evm = Evm::builder()
             .with_db(db)
             .with_external_context(insp)
-            .with_spec_id(SpecId::CANCUN)
+            .with_spec_id(if eof_tx { SpecId::OSAKA } else { SpecId::CANCUN })
             .modify_tx_env(|tx| {
                 tx.caller = CALLER;
-                tx.transact_to = TxKind::Call(TARGET);
                 tx.gas_limit = 1_000_000;
                 tx.gas_price = U256::from(1);
+                if eof_tx {
+                    // a create transaction whose init code starts with the EOF magic but is not a valid container:
+                    // rejected before a frame exists, and must still be reported as eofcreate / eofcreate_end
+                    tx.transact_to = TxKind::Create;
+                    tx.data = Bytes::from_static(&[0xEF, 0x00, 0x01, 0x02, 0x03]);
+                } else {
+                    tx.transact_to = TxKind::Call(TARGET);
+                }
             })
             .append_handler_register(inspector_handle_register)
             .build();
         let ok = evm.transact().is_ok();
         let i = &evm.context.external;
-        if i.calls != i.call_ends || i.creates != i.create_ends || i.max_depth_mismatch || i.depth != 0 || !ok {
+        if i.calls != i.call_ends || i.creates != i.create_ends || i.eofcreates != i.eofcreate_ends || i.max_depth_mismatch || i.depth != 0 || !ok {
             bad = true;
         }
-        out += &format!("[short_circuit={} ok={} call={} call_end={} create={} create_end={}] ", short, ok, i.calls, i.call_ends, i.creates, i.create_ends);
+        out += &format!("[calls_answered={} creates_answered={} eof_create_tx={} ok={} call={}/{} create={}/{} eofcreate={}/{}] ",
+            short, short_create, eof_tx, ok, i.calls, i.call_ends, i.creates, i.create_ends, i.eofcreates, i.eofcreate_ends);
     }
     format!("{}{}", if bad { "UNBALANCED " } else { "balanced " }, out)
 }
@@ -538,4 +561,48 @@ fn return_depth(func: &str, key: &str) -> String {
         }
     }
     format!("before={} after={} kind=return", before, c.inner.journaled_state.depth)
+}
+
+
+// ---------------------------------------------------------------- JournaledState::clear leaves nothing behind
+pub fn journal_clear_leak() -> String {
+    let mut db = CacheDB::new(EmptyDB::default());
+    db.insert_account_info(CALLER, AccountInfo { nonce: 0, balance: U256::from(10), code_hash: B256::default(), code: None });
+    let mut warm = HashSet::default();
+    warm.insert(TARGET);
+    let mut js = JournaledState::new(SpecId::CANCUN, warm);
+    let _ = js.load_account(CALLER, &mut db);
+    js.tstore(CALLER, U256::from(1), U256::from(2));
+    js.depth = 3;
+    js.clear();
+    let leaked = js.state.len() + js.transient_storage.len() + js.logs.len() + js.warm_preloaded_addresses.len() + js.depth
+        + js.journal.iter().map(|j| j.len()).sum::<usize>();
+    format!("leaked={} (state={} transient={} warm={} depth={})", leaked, js.state.len(), js.transient_storage.len(), js.warm_preloaded_addresses.len(), js.depth)
+}
+
+// ---------------------------------------------------------------- EIP-7623: gas used is at least the calldata floor, also when a refund was earned
+pub fn floor_gas_used() -> String {
+    use revm::primitives::TxKind;
+    use revm::Evm;
+    // PUSH1 0 PUSH1 1 SSTORE STOP on a slot holding 1: clears it (refund 4800)
+    let code = Bytecode::new_legacy(Bytes::from_static(&[0x60, 0x00, 0x60, 0x01, 0x55, 0x00]));
+    let mut db = CacheDB::new(EmptyDB::default());
+    db.insert_account_info(CALLER, AccountInfo { nonce: 0, balance: U256::from(1_000_000_000u64), code_hash: B256::default(), code: None });
+    db.insert_account_info(TARGET, AccountInfo { nonce: 1, balance: U256::ZERO, code_hash: code.hash_slow(), code: Some(code) });
+    db.insert_account_storage(TARGET, U256::from(1), U256::from(1)).unwrap();
+    let data = vec![0xffu8; 100];
+    let floor = 21_000 + 10 * 4 * 100u64;
+    let mut evm = Evm::builder()
+        .with_db(db)
+        .with_spec_id(SpecId::PRAGUE)
+        .modify_tx_env(|tx| {
+            tx.caller = CALLER;
+            tx.transact_to = TxKind::Call(TARGET);
+            tx.gas_limit = 100_000;
+            tx.gas_price = U256::from(1);
+            tx.data = Bytes::from(data);
+        })
+        .build();
+    let r = evm.transact().expect("tx runs");
+    format!("gas_used={} floor={}", r.result.gas_used(), floor)
 }
